@@ -187,4 +187,125 @@ theorem toMode_addMode (x y : TMode R) (hx : x.ok) :
     | none => exact toMode_addPlain _ _
     | some U2 => exact toMode_addFac c1 c2 U1 U2 hx
 
+/-! ### multiplication -/
+
+theorem div_mod_ne {a b r : Nat} (h : a ≠ b) : a / r ≠ b / r ∨ a % r ≠ b % r := by
+  by_contra hc
+  have h1 : a / r = b / r := by by_contra h'; exact hc (Or.inl h')
+  have h2 : a % r = b % r := by by_contra h'; exact hc (Or.inr h')
+  apply h
+  rw [← Nat.div_add_mod a r, ← Nat.div_add_mod b r, h1, h2]
+
+/-- product of two diagonal (CP) cores, read off the diagonal -/
+theorem get_mul_offdiag (c1 c2 : Core R) (h1 : c1.isCP = true) (h2 : c2.isCP = true) (a b j j' r : Nat) (hab : a ≠ b) :
+    c1.get (a / r) j (b / r) * c2.get (a % r) j' (b % r) = 0 := by
+  rcases div_mod_ne (r := r) hab with h | h
+  · rw [Core.get_offdiag c1 h1 _ _ _ h, zero_mul]
+  · rw [Core.get_offdiag c2 h2 _ _ _ h, mul_zero]
+
+theorem toMode_mulPlain (x y : TMode R) : (mulPlain x y).toMode = Mode.kron x.toMode y.toMode := by
+  by_cases hcp : (x.core.isCP && y.core.isCP) = true
+  · have h1 : x.core.isCP = true := by simp_all
+    have h2 : y.core.isCP = true := by simp_all
+    have hd1 : x.decomp.isCP = true := by simp [h1]
+    have hd2 : y.decomp.isCP = true := by simp [h2]
+    apply Mode.ext'
+    · simp [mulPlain, hcp, Mode.kron, Core.isCP_rl _ h1, Core.isCP_rl _ h2]
+    · simp [mulPlain, hcp, Mode.kron]
+    · simp [mulPlain, hcp, Mode.kron]
+    · intro i a b
+      simp only [mulPlain, hcp, if_true, TMode.toMode_G, Mode.kron, TMode.decomp_none, Core.cp_get, TMode.decomp_rr,
+        TMode.toMode_rl, TMode.toMode_rr, Core.isCP_rl _ h2]
+      by_cases hab : a = b
+      · subst hab; simp
+      · simp only [hab, if_false]
+        exact (get_mul_offdiag _ _ hd1 hd2 a b i i _ hab).symm
+  · have hcp' : (x.core.isCP && y.core.isCP) = false := by simpa using hcp
+    apply Mode.ext'
+    · simp [mulPlain, hcp', Mode.kron]
+    · simp [mulPlain, hcp', Mode.kron]
+    · simp [mulPlain, hcp', Mode.kron]
+    · intro i a b
+      simp only [mulPlain, hcp', Mode.kron, TMode.toMode_G, TMode.decomp_none, Core.tt_get, TMode.decomp_rl, TMode.decomp_rr,
+        TMode.toMode_rl, TMode.toMode_rr]
+      rfl
+
+section mulFac
+variable (c1 c2 : Core R) (U1 U2 : Fac R)
+
+theorem mulFac_rl : (mulFac c1 c2 U1 U2).core.rl = c1.rl * c2.rl := by
+  by_cases hcp : (c1.isCP && c2.isCP) = true
+  · have h1 : c1.isCP = true := by simp_all
+    have h2 : c2.isCP = true := by simp_all
+    simp [mulFac, hcp, Core.isCP_rl _ h1, Core.isCP_rl _ h2]
+  · have hcp' : (c1.isCP && c2.isCP) = false := by simpa using hcp
+    simp [mulFac, hcp']
+
+theorem mulFac_rr : (mulFac c1 c2 U1 U2).core.rr = c1.rr * c2.rr := by
+  by_cases hcp : (c1.isCP && c2.isCP) = true
+  · simp [mulFac, hcp]
+  · have hcp' : (c1.isCP && c2.isCP) = false := by simpa using hcp
+    simp [mulFac, hcp']
+
+theorem mulFac_spatial : (mulFac c1 c2 U1 U2).core.spatial = c1.spatial * c2.spatial := by
+  by_cases hcp : (c1.isCP && c2.isCP) = true
+  · simp [mulFac, hcp]
+  · have hcp' : (c1.isCP && c2.isCP) = false := by simpa using hcp
+    simp [mulFac, hcp']
+
+theorem mulFac_U : (mulFac c1 c2 U1 U2).U = some (U1.krao U2) := by
+  by_cases hcp : (c1.isCP && c2.isCP) = true
+  · simp [mulFac, hcp]
+  · have hcp' : (c1.isCP && c2.isCP) = false := by simpa using hcp
+    simp [mulFac, hcp']
+
+theorem mulFac_get (a j b : Nat) : (mulFac c1 c2 U1 U2).core.get a j b =
+    c1.get (a / c2.rl) (j / c2.spatial) (b / c2.rr) * c2.get (a % c2.rl) (j % c2.spatial) (b % c2.rr) := by
+  by_cases hcp : (c1.isCP && c2.isCP) = true
+  · have h1 : c1.isCP = true := by simp_all
+    have h2 : c2.isCP = true := by simp_all
+    simp only [mulFac, hcp, if_true, Core.cp_get, Core.isCP_rl _ h2]
+    by_cases hab : a = b
+    · subst hab; simp
+    · simp only [hab, if_false]
+      exact (get_mul_offdiag _ _ h1 h2 a b _ _ _ hab).symm
+  · have hcp' : (c1.isCP && c2.isCP) = false := by simpa using hcp
+    simp [mulFac, hcp']
+end mulFac
+
+theorem toMode_mulFac (c1 c2 : Core R) (U1 U2 : Fac R) (h2 : U2.cols = c2.spatial) :
+    (mulFac c1 c2 U1 U2).toMode = Mode.kron (TMode.mk c1 (some U1)).toMode (TMode.mk c2 (some U2)).toMode := by
+  apply Mode.ext'
+  · simp [mulFac_rl, Mode.kron]
+  · simp [mulFac_rr, Mode.kron]
+  · simp [TMode.n, mulFac_U, Mode.kron, Fac.krao]
+  · intro i a b
+    simp only [TMode.toMode_G, Mode.kron, TMode.toMode_rl, TMode.toMode_rr, TMode.decomp_some]
+    have hd : (mulFac c1 c2 U1 U2).decomp = Fac.apply (U1.krao U2) (mulFac c1 c2 U1 U2).core := by
+      unfold TMode.decomp; rw [mulFac_U]
+    rw [hd, Fac.apply_get, Fac.apply_get, Fac.apply_get, mulFac_spatial]
+    simp only [mulFac_get, Fac.krao, h2]
+    rw [sum_range_mul c1.spatial c2.spatial (fun j1 j2 => U1.f i j1 * U2.f i j2 *
+      (c1.get (a / c2.rl) j1 (b / c2.rr) * c2.get (a % c2.rl) j2 (b % c2.rr)))]
+    rw [Finset.sum_mul_sum]
+    apply Finset.sum_congr rfl; intro j1 _
+    apply Finset.sum_congr rfl; intro j2 _
+    ring
+
+/-- the code-level `*` of one mode is the slice-wise Kronecker product of the semantic modes -/
+theorem toMode_mulMode (x y : TMode R) (hy : y.ok) :
+    (mulMode x y).toMode = Mode.kron x.toMode y.toMode := by
+  obtain ⟨c1, U1⟩ := x
+  obtain ⟨c2, U2⟩ := y
+  cases U1 with
+  | none => exact toMode_mulPlain _ _
+  | some U1 =>
+    cases U2 with
+    | none => exact toMode_mulPlain _ _
+    | some U2 =>
+      simp only [mulMode]
+      split
+      · exact toMode_mulFac c1 c2 U1 U2 hy
+      · exact toMode_mulPlain _ _
+
 end TN
